@@ -1,6 +1,7 @@
 package eng
 
 import (
+	"time"
 	"fmt"
 	"go/constant"
 	"go/token"
@@ -69,6 +70,7 @@ type Options struct {
 	Unwind     int
 	MaxAlloc   int
 	MinCap     int
+	FeasFrom   int
 	Trace      bool
 	FeasChecks bool
 }
@@ -109,6 +111,10 @@ type Engine struct {
 	curPos  token.Pos
 	threads *threadState
 	asserts int
+	stampSeq int
+	fixed   map[string]uint64
+	feasBase *Solver
+	feasDone map[int]bool
 	arrPool map[string][]*Object
 	kills   int
 	feasTimeouts int
@@ -137,6 +143,9 @@ func NewEngine(prog *ssa.Program, opts Options) *Engine {
 	e.clock = e.tb.Int(946684800 * 1e9) // synctest bubble epoch: 2000-01-01T00:00:00Z
 	if e.opts.Unwind == 0 {
 		e.opts.Unwind = 12
+	}
+	if e.opts.FeasFrom == 0 {
+		e.opts.FeasFrom = 2
 	}
 	if e.opts.MinCap == 0 {
 		e.opts.MinCap = 8
@@ -187,6 +196,9 @@ func (e *Engine) addObl(kind, label string, pos token.Pos, bad *Term) {
 }
 
 func (e *Engine) addAssume(c *Term) {
+	if e.fixed != nil && e.tb.Implies(e.G, c).IsFalse() {
+		fmt.Fprintf(os.Stderr, "ASSUME violated under fixed values at %s\n", e.posStr(e.curPos))
+	}
 	e.assume = e.tb.And(e.assume, e.tb.Implies(e.G, c))
 }
 
@@ -236,6 +248,25 @@ func (e *Engine) catcher(panicKind bool) *Catcher {
 }
 
 // feasible asks the solver whether assume ∧ g is satisfiable ("unknown" counts as feasible).
+func (e *Engine) andAssume(cs ...*Term) {
+	for _, c := range cs {
+		if e.fixed != nil && c.IsFalse() {
+			fmt.Fprintf(os.Stderr, "input-domain assumption violated under fixed values at %s\n", e.posStr(e.curPos))
+		}
+		e.assume = e.tb.And(e.assume, c)
+	}
+}
+
+func conjunctsOf(t *Term) []*Term {
+	if t.Op == OpAnd {
+		return t.Args
+	}
+	if t.IsTrue() {
+		return nil
+	}
+	return []*Term{t}
+}
+
 func (e *Engine) feasible(g *Term) bool {
 	if g.IsFalse() {
 		return false
@@ -263,7 +294,27 @@ func (e *Engine) feasible(g *Term) bool {
 		// keep the fast path on z3; FP-heavy guards are treated as feasible
 		r = "unknown"
 	} else {
-		r, _ = e.feas.Check([]*Term{e.assume, g}, nil)
+		t0 := time.Now()
+		// assumptions only ever grow: assert the new conjuncts permanently, push/pop only the guard
+		if e.feasBase != e.feas {
+			e.feasBase = e.feas
+			e.feasDone = map[int]bool{}
+		}
+		var fresh []*Term
+		for _, c := range conjunctsOf(e.assume) {
+			if !e.feasDone[c.ID] {
+				e.feasDone[c.ID] = true
+				fresh = append(fresh, c)
+			}
+		}
+		e.feas.AssertPermanent(fresh)
+		r, _ = e.feas.Check([]*Term{g}, nil)
+		if d := time.Since(t0); d > 500*time.Millisecond && os.Getenv("VERIF_PROGRESS") != "" {
+			fmt.Fprintf(os.Stderr, "  slow feasibility query: %s %.1fs at %s\n", r, d.Seconds(), e.posStr(e.curPos))
+			if os.Getenv("VERIF_PROGRESS") == "2" {
+				fmt.Fprintf(os.Stderr, "    guard: %s\n", g.Dump(6))
+			}
+		}
 		if r == "unknown" {
 			e.feasTimeouts++
 			e.note("feasibility query timed out (branch kept)")
@@ -289,7 +340,16 @@ type Frame struct {
 	rets    []retArrival
 	cfg     *FuncCFG
 	skipG   map[*ssa.BasicBlock]*Term // slot-wise map range: guard of "entry absent, continue" per header block
+	iterStamp int
 	symExit map[*Loop]bool            // a symbolic branch left this loop during the current iteration
+	concHdr map[*Loop]bool            // the loop header's branch was concrete in the current iteration
+	endG    map[*ssa.BasicBlock]endGuard // guard at the terminator of each evaluated block (current iteration)
+}
+
+type endGuard struct {
+	G     *Term
+	Kills int
+	Iter  int // loop-iteration stamp
 }
 
 type retArrival struct {
@@ -352,6 +412,7 @@ func (e *Engine) CallFunction(fn *ssa.Function, args []Value, bind []Value) Valu
 		fmt.Fprintf(os.Stderr, "%*scall %s\n", e.depth, "", name)
 	}
 	savedPos := e.curPos
+	entryG, kills0 := e.G, e.kills
 	e.evalRegion(fr, fr.cfg.Root, []Arrival{{G: e.G, PredIdx: -1}}, nil)
 	e.curPos = savedPos
 	// merge returns
@@ -367,6 +428,10 @@ func (e *Engine) CallFunction(fn *ssa.Function, args []Value, bind []Value) Valu
 		exit = e.tb.Or(exit, r.G)
 	}
 	e.G = exit
+	if e.kills == kills0 {
+		// nothing died inside the call: the disjunction of the return guards is the entry guard
+		e.G = entryG
+	}
 	if vs[0] == nil {
 		return nil
 	}
@@ -423,9 +488,26 @@ func (e *Engine) evalRegion(fr *Frame, l *Loop, entry []Arrival, outs *map[*ssa.
 	return back
 }
 
+func headerPos(l *Loop) token.Pos {
+	for _, ins := range l.Header.Instrs {
+		if ins.Pos().IsValid() {
+			return ins.Pos()
+		}
+	}
+	for b := range l.Blocks {
+		for _, ins := range b.Instrs {
+			if ins.Pos().IsValid() {
+				return ins.Pos()
+			}
+		}
+	}
+	return token.NoPos
+}
+
 func (e *Engine) evalLoop(fr *Frame, l *Loop, arrivals []Arrival) map[*ssa.BasicBlock][]Arrival {
 	exits := map[*ssa.BasicBlock][]Arrival{}
 	needCheck := false
+	concrete := false
 	for i := 0; ; i++ {
 		if len(arrivals) == 0 {
 			break
@@ -437,15 +519,21 @@ func (e *Engine) evalLoop(fr *Frame, l *Loop, arrivals []Arrival) map[*ssa.Basic
 		if any.IsFalse() {
 			break
 		}
-		if i > 0 && needCheck && !any.IsTrue() && !e.feasible(any) {
+		if i >= e.opts.FeasFrom && needCheck && !any.IsTrue() && !e.feasible(any) {
 			break
 		}
-		if i >= e.opts.Unwind {
+		if i >= e.opts.Unwind && !(concrete && i < 512) {
+			if os.Getenv("VERIF_PROGRESS") != "" {
+				fmt.Fprintf(os.Stderr, "unwinding bound hit in %s at %s: arrivals=%d any=%s\n", fr.fn.Name(), e.posStr(headerPos(l)), len(arrivals), any.Dump(3))
+				for _, a := range arrivals {
+					fmt.Fprintf(os.Stderr, "   arrival predIdx=%d g=%s\n", a.PredIdx, a.G.Dump(2))
+				}
+			}
 			// unwinding assertion: no execution needs another iteration
 			saved := e.G
 			e.G = e.tb.True
 			e.obls = append(e.obls, &Obligation{Kind: "unwind", Label: fmt.Sprintf("loop in %s needs more than %d iterations", fr.fn.Name(), e.opts.Unwind),
-				Pos: e.posStr(l.Header.Instrs[0].Pos()), Cond: any, Assume: e.assume, Harness: e.harness})
+				Pos: e.posStr(headerPos(l)), Cond: any, Assume: e.assume, Harness: e.harness})
 			e.G = saved
 			break
 		}
@@ -453,10 +541,19 @@ func (e *Engine) evalLoop(fr *Frame, l *Loop, arrivals []Arrival) map[*ssa.Basic
 			fr.symExit = map[*Loop]bool{}
 		}
 		fr.symExit[l] = false
+		if fr.concHdr == nil {
+			fr.concHdr = map[*Loop]bool{}
+		}
+		fr.concHdr[l] = false
+		e.stampSeq++
+		fr.iterStamp = e.stampSeq
 		k0 := e.kills
 		arrivals = e.evalRegion(fr, l, arrivals, &exits)
-		needCheck = fr.symExit[l] || e.kills != k0
+		needCheck = (fr.symExit[l] || e.kills != k0) && !fr.concHdr[l]
+		concrete = fr.concHdr[l] // header decided concretely (constant condition or slot-wise map range): terminates by itself
 	}
+	e.stampSeq++
+	fr.iterStamp = e.stampSeq
 	return exits
 }
 
@@ -480,6 +577,15 @@ func (e *Engine) evalBlock(fr *Frame, b *ssa.BasicBlock, as []Arrival, route fun
 	}
 	if G.IsFalse() {
 		return
+	}
+	// a join block that post-dominates its immediate dominator gets the dominator's guard back when no
+	// path died in between (classic merge at the post-dominator); this keeps guards small
+	if len(as) > 1 {
+		if d := b.Idom(); d != nil && fr.cfg.LoopOf[d] == fr.cfg.LoopOf[b] {
+			if eg, ok := fr.endG[d]; ok && eg.Kills == e.kills && eg.Iter == fr.iterStamp && fr.cfg.PostDominates(b, d) {
+				G = eg.G
+			}
+		}
 	}
 	// merge snapshots of loop-live-out registers
 	hasSnap := false
@@ -552,11 +658,26 @@ func (e *Engine) evalBlock(fr *Frame, b *ssa.BasicBlock, as []Arrival, route fun
 		if p := ins.Pos(); p.IsValid() {
 			e.curPos = p
 		}
+		switch ins.(type) {
+		case *ssa.If, *ssa.Jump:
+			if fr.endG == nil {
+				fr.endG = map[*ssa.BasicBlock]endGuard{}
+			}
+			fr.endG[b] = endGuard{e.G, e.kills, fr.iterStamp}
+		}
 		switch x := ins.(type) {
 		case *ssa.If:
 			c := e.operand(fr, x.Cond).(*Term)
 			cur := e.G
 			// slot-wise map range: the false edge of "if ok" means "this slot is absent: continue"
+			if lp := fr.cfg.LoopOf[b]; lp != nil && lp.Header == b && lp != fr.cfg.Root {
+				if _, isSkip := fr.skipG[b]; c.IsConst() || isSkip {
+					if fr.concHdr == nil {
+						fr.concHdr = map[*Loop]bool{}
+					}
+					fr.concHdr[lp] = true
+				}
+			}
 			if skip, ok := fr.skipG[b]; ok {
 				delete(fr.skipG, b)
 				gT := tb.And(cur, c)
@@ -838,13 +959,18 @@ func (e *Engine) readObj(o *Object, path []PathEl) Value {
 		}
 		var cur Value
 		if path[0].Sym != nil {
-			cur = e.selectElem(o.E, path[0].Sym)
+			if len(o.E) == 0 {
+				cur = e.zero(o.Typ)
+			} else {
+				cur = e.selectElem(o.E, path[0].Sym)
+			}
 		} else {
 			if path[0].Idx >= len(o.E) {
 				if len(o.E) == 0 {
-					panic(e.unsupported("read from empty array object"))
+					cur = e.zero(o.Typ)
+				} else {
+					cur = o.E[0]
 				}
-				cur = o.E[0]
 			} else {
 				cur = o.E[path[0].Idx]
 			}
@@ -1074,7 +1200,13 @@ func (e *Engine) unop(fr *Frame, x *ssa.UnOp) Value {
 	v := e.operand(fr, x.X)
 	switch x.Op {
 	case token.MUL:
-		return e.load(v.(*Ptr), x.Pos())
+		r := e.load(v.(*Ptr), x.Pos())
+		if r == nil {
+			// no alternative of the pointer is feasible under the current guard: the path is dead
+			e.G = tb.False
+			return e.zero(x.Type())
+		}
+		return r
 	case token.NOT:
 		return tb.Not(v.(*Term))
 	case token.SUB:
@@ -1464,11 +1596,22 @@ func (e *Engine) makeSlice(fr *Frame, x *ssa.MakeSlice) Value {
 		}
 		n = int(cp.C)
 	} else {
-		n = e.opts.MaxAlloc
 		bad := tb.Or(tb.Cmp(OpSLT, cp, tb.Int(0)))
 		e.runtimePanic("makeslice: cap out of range", x.Pos(), bad)
-		e.addObl("bound", fmt.Sprintf("make([]T, n) with symbolic n exceeds engine bound %d", n), x.Pos(), tb.Cmp(OpSLT, tb.Int(int64(n)), cp))
-		e.G = tb.And(e.G, tb.Cmp(OpSLE, cp, tb.Int(int64(n))))
+		if u := tb.UB(cp); u <= 64 {
+			// symbolic capacity with a small syntactic upper bound: allocate that many cells and use the
+			// bound as the capacity (an over-approximation of cap(); lengths and contents are exact)
+			n = int(u)
+			e.note("make with symbolic capacity: capacity over-approximated by its upper bound")
+			if !ln.IsConst() {
+				e.runtimePanic("makeslice: len out of range", x.Pos(), tb.Or(tb.Cmp(OpSLT, ln, tb.Int(0)), tb.Cmp(OpSLT, cp, ln)))
+			}
+			cp = tb.Int(int64(n))
+		} else {
+			n = e.opts.MaxAlloc
+			e.addObl("bound", fmt.Sprintf("make([]T, n) with symbolic n exceeds engine bound %d", n), x.Pos(), tb.Cmp(OpSLT, tb.Int(int64(n)), cp))
+			e.G = tb.And(e.G, tb.Cmp(OpSLE, cp, tb.Int(int64(n))))
+		}
 	}
 	if !ln.IsConst() {
 		e.runtimePanic("makeslice: len out of range", x.Pos(), tb.Or(tb.Cmp(OpSLT, ln, tb.Int(0)), tb.Cmp(OpSLT, cp, ln)))
@@ -1629,7 +1772,8 @@ func (e *Engine) sliceOp(fr *Frame, x *ssa.Slice) Value {
 					nmc = 0
 				}
 			}
-			out = append(out, SliceAlt{G: a.G, Arr: a.Arr, Off: tb.BVOp(OpAdd, a.Off, l), Len: tb.BVOp(OpSub, h, l), Cap: tb.BVOp(OpSub, m, l), ML1: nml + 1, MC1: nmc + 1})
+			// the length is clamped to its bound (equal on every live path) so that loops over it end syntactically
+			out = append(out, SliceAlt{G: a.G, Arr: a.Arr, Off: tb.BVOp(OpAdd, a.Off, l), Len: tb.ClampUB(tb.BVOp(OpSub, h, l), uint64(nml)), Cap: tb.BVOp(OpSub, m, l), ML1: nml + 1, MC1: nmc + 1})
 		}
 		e.runtimePanic("slice bounds out of range", x.Pos(), bad)
 		return &SliceV{out}
@@ -1765,11 +1909,17 @@ func (e *Engine) sliceToArrayPtr(fr *Frame, x *ssa.SliceToArrayPointer) Value {
 // sliceLen / sliceCap of a union
 func (e *Engine) sliceLen(s *SliceV) *Term {
 	if len(s.Alts) == 1 {
-		return s.Alts[0].Len
+		if s.Alts[0].Arr == nil {
+			return e.tb.Int(0)
+		}
+		return e.tb.ClampUB(s.Alts[0].Len, uint64(e.lenUB(s.Alts[0])))
 	}
 	r := e.tb.Int(0)
 	for i := len(s.Alts) - 1; i >= 0; i-- {
-		r = e.tb.Ite(s.Alts[i].G, s.Alts[i].Len, r)
+		if s.Alts[i].Arr == nil {
+			continue
+		}
+		r = e.tb.Ite(s.Alts[i].G, e.tb.ClampUB(s.Alts[i].Len, uint64(e.lenUB(s.Alts[i]))), r)
 	}
 	return r
 }
@@ -1786,6 +1936,9 @@ func (e *Engine) sliceCap(s *SliceV) *Term {
 
 // sliceElem reads element i (term, relative to the slice) of one alternative.
 func (e *Engine) sliceElem(a SliceAlt, i *Term) Value {
+	if len(a.Arr.E) == 0 {
+		return e.zero(a.Arr.Typ)
+	}
 	cell := e.tb.BVOp(OpAdd, a.Off, i)
 	return e.selectElem(a.Arr.E, cell)
 }
@@ -1824,10 +1977,11 @@ func (e *Engine) maxLen(a SliceAlt) int {
 	if a.Arr == nil {
 		return 0
 	}
-	if a.Len.IsConst() {
+	b := e.lenUB(a)
+	if a.Len.IsConst() && a.Len.C < uint64(b) {
 		return int(a.Len.C)
 	}
-	return e.lenUB(a)
+	return b
 }
 
 func (e *Engine) maxLenOld(a SliceAlt) int {
